@@ -104,7 +104,8 @@ func setup(c *scase, attempts [][]*peerSpec, autoNext bool) (*rig, error) {
 		return nil, err
 	}
 	cl := newScriptClient(w, attempts, autoNext)
-	rec := &recorder{Store: raw, notify: cl.putDone}
+	rec := &recorder{Store: raw}
+	cl.rec = rec
 	top, err := buildStack(ctx, rec, w.sch, c.sk)
 	if err != nil {
 		cancel()
